@@ -41,7 +41,16 @@ func VerifFault() {
 		s.step(tx, w)
 	}
 	syncsBefore := s.disk.counts[faultSync]
-	cerr := tx.Commit()
+	var cerr error
+	rolledBack := false
+	if verifParam("rollbacks", 1) == 1 && verifBool("rollback") {
+		// the failure hit (if at all) during the operations (Flush); the transaction is given up
+		verifAssert(tx.Rollback() == nil, "Rollback succeeds")
+		rolledBack = true
+		cerr = &verifIOErr{"rolled back"}
+	} else {
+		cerr = tx.Commit()
+	}
 	faults := s.disk.nfaults
 	s.disk.faultKind = faultNone
 	verifLogU64("faults hit", uint64(faults))
@@ -50,6 +59,8 @@ func VerifFault() {
 	if cerr == nil {
 		verifAssert(faults == 0 || kind == faultShortWrite, "Commit succeeds only if no call failed (a short write without error is continued)")
 		s.m = w.clone()
+	} else if rolledBack {
+		assertSnapEqual(snapBefore, snapOf(s.f), "after the rollback", true)
 	} else {
 		verifAssert(faults > 0 || isKind(cerr, OutOfMemory), "Commit fails only because of the injected failure (or OutOfMemory)")
 		// the last committed state is kept in memory
